@@ -905,6 +905,8 @@ class Interp:
     def get_attr(self, obj, name):
         t = type(obj)
         if t is SymInt or t is SymBool:
+            if not hasattr(int, name):  # a symbolic int/bool has exactly the attributes of int (bool is a subclass)
+                raise AttributeError(f"'int' object has no attribute '{name}'")
             return SymMethod(self, obj, name)
         if t is SuperProxy:
             return self.super_attr(obj, name)
